@@ -1201,9 +1201,12 @@ size_t ZSTDMT_toFlushNow(ZSTDMT_CCtx* mtctx)
              * However, jobID is expected to still be active:
              * if jobID was already completed and fully flushed,
              * ZSTDMT_flushProduced() should have already moved onto next job.
-             * Therefore, some input has not yet been consumed. */
+             * Therefore, some input has not yet been consumed,
+             * unless the job is empty (a frame ended without input) or has failed. */
             if (toFlush==0) {
-                assert(jobPtr->consumed < jobPtr->src.size);
+                assert( (jobPtr->consumed < jobPtr->src.size)
+                     || (jobPtr->src.size == 0)
+                     || ZSTD_isError(cResult) );
             }
         }
         ZSTD_pthread_mutex_unlock(&mtctx->jobs[wJobID].job_mutex);
